@@ -55,11 +55,30 @@ def _rel(p: Path) -> str:
     return str(p.relative_to(SRC))
 
 
+_ALIASES: dict[int, tuple] = {}
+_NODES: dict[int, list] = {}
+
+
+def _walk(tree: ast.AST) -> list:
+    """ast.walk(tree) as a list, computed once per tree."""
+    k = id(tree)
+    if k not in _NODES:
+        _NODES[k] = list(ast.walk(tree))
+    return _NODES[k]
+
+
 def _fs_aliases(tree: ast.Module, is_filesys: bool) -> tuple[dict[str, str], set[str]]:
+    k = id(tree)
+    if k not in _ALIASES:
+        _ALIASES[k] = _fs_aliases0(tree, is_filesys)
+    return _ALIASES[k]
+
+
+def _fs_aliases0(tree: ast.Module, is_filesys: bool) -> tuple[dict[str, str], set[str]]:
     """(local name -> class of FS_CLASSES it denotes, local names that denote the module srctools.filesys)."""
     names: dict[str, str] = {c: c for c in FS_CLASSES} if is_filesys else {}
     mods: set[str] = set()
-    for n in ast.walk(tree):
+    for n in _walk(tree):
         if isinstance(n, ast.ImportFrom) and n.module in ('srctools.filesys', 'filesys') or \
                 isinstance(n, ast.ImportFrom) and n.level and n.module == 'filesys':
             for a in n.names:
@@ -80,7 +99,7 @@ def _fs_aliases(tree: ast.Module, is_filesys: bool) -> tuple[dict[str, str], set
                 elif a.name == 'srctools':
                     mods.add((a.asname or 'srctools') + '.filesys')
     # plain aliases: R = RawFileSystem
-    for n in ast.walk(tree):
+    for n in _walk(tree):
         if isinstance(n, ast.Assign) and len(n.targets) == 1 and isinstance(n.targets[0], ast.Name):
             d = _dotted(n.value)
             if d in names and n.targets[0].id not in names:
@@ -106,7 +125,7 @@ def foreign_patches(trees: dict[str, ast.Module]) -> list[tuple[str, str, str]]:
     for rel, tree in trees.items():
         is_fs = rel == 'filesys.py'
         names, mods = _fs_aliases(tree, is_fs)
-        for node in ast.walk(tree):
+        for node in _walk(tree):
             targets: list[ast.AST] = []
             if isinstance(node, ast.Assign):
                 targets = list(node.targets)
@@ -158,7 +177,7 @@ def foreign_subclasses(trees: dict[str, ast.Module]) -> list[tuple[str, str, str
     out = []
     for rel, tree in trees.items():
         names, mods = _fs_aliases(tree, rel == 'filesys.py')
-        for cls in (n for n in ast.walk(tree) if isinstance(n, ast.ClassDef)):
+        for cls in (n for n in _walk(tree) if isinstance(n, ast.ClassDef)):
             bases = [_class_of(b.value if isinstance(b, ast.Subscript) else b, names, mods) for b in cls.bases]
             if 'RawFileSystem' not in bases or (rel == 'filesys.py' and cls.name == 'RawFileSystem'):
                 continue
@@ -414,16 +433,57 @@ def _make_entry_class():
     return Entry
 
 
+def raw_constructions(trees: dict[str, ast.Module]) -> list[tuple[str, str, str]]:
+    """Every `RawFileSystem(...)` call of the package (its factories: get_filesystem, Game.get_filesystem, get_inst_locs,
+    the scripts): (file, call, 'constrained' | 'UNCONSTRAINED: ...')."""
+    out = []
+    for rel, tree in trees.items():
+        names, mods = _fs_aliases(tree, rel == 'filesys.py')
+        for node in _walk(tree):
+            if isinstance(node, ast.Call) and _class_of(node.func, names, mods) == 'RawFileSystem':
+                flag = [k.value for k in node.keywords if k.arg == 'constrain_path'] + list(node.args[1:2])
+                star = any(isinstance(a, ast.Starred) for a in node.args) or any(k.arg is None for k in node.keywords)
+                if star:
+                    verdict = 'UNCONSTRAINED: * / ** arguments, the flag cannot be read'
+                elif not flag or (isinstance(flag[0], ast.Constant) and flag[0].value is True):
+                    verdict = 'constrained'
+                else:
+                    verdict = f'UNCONSTRAINED: constrain_path={ast.unparse(flag[0])[:30]}'
+                out.append((rel, f'line {node.lineno}: {ast.unparse(node)[:50]}', verdict))
+    return out
+
+
 def _triples(name: str, rows, comment: str) -> list[str]:
     return [f'(* {comment} *)', f'Definition {name} : list (string * string * string) := [',
             ';\n'.join(f'  ("{_coq_ident(a)}", "{_coq_ident(b)}", "{_coq_ident(c)}")' for a, b, c in rows), '].']
 
 
 def translate() -> tuple[str, dict]:
+    import re
+    _ALIASES.clear()
+    _NODES.clear()
     trees: dict[str, ast.Module] = {}
+    skipped = 0
+    # a file can only matter if it names the module / the classes, or stores into an attribute of the path library
+    # (cheap test on the text that only decides which files are parsed; everything reported comes from the syntax trees)
+    relevant = re.compile(r'filesys|FileSystem|RootEscapeError|setattr|delattr|__dict__|\bpatch\b|'
+                          r'\b(?:os|posixpath|builtins|io|genericpath)\s*(?:\.\s*\w+)+\s*(?:[-+*/|&^%@]|//|<<|>>)?=(?!=)|'
+                          r'\bdel\s+(?:os|posixpath|builtins|io)\b')
+    always = {'filesys.py'}
+    try:       # the modules filesys.py itself imports from are always read (calls from the classes are followed into them)
+        for n in ast.parse((SRC / 'filesys.py').read_text(encoding='utf8')).body:
+            if isinstance(n, ast.ImportFrom) and n.module and n.module.split('.')[0] == 'srctools' and not n.level:
+                rel = n.module.replace('.', '/')[len('srctools/'):] if '.' in n.module else '__init__'
+                always |= {rel + '.py', rel + '/__init__.py'}
+    except (OSError, SyntaxError) as e:
+        raise TranslateError(f'filesys.py: cannot be parsed: {e}')
     for p in package_files():
         try:
-            trees[_rel(p)] = ast.parse(p.read_text(encoding='utf8'))
+            text = p.read_text(encoding='utf8')
+            if _rel(p) not in always and not relevant.search(text):
+                skipped += 1
+                continue
+            trees[_rel(p)] = ast.parse(text)
         except (SyntaxError, UnicodeDecodeError) as e:
             raise TranslateError(f'{_rel(p)}: cannot be parsed for the package-wide census: {e}')
     if 'filesys.py' not in trees:
@@ -438,6 +498,14 @@ def translate() -> tuple[str, dict]:
     reach, followed = reachable_foreign(trees)
     state, sig_ok, attrs = per_object_state(fs)
     entries, unread = entry_points(fs)
+    mentioning = []
+    for rel, tree in trees.items():
+        if rel == 'filesys.py' or rel.startswith(('scripts/', '_pyinstaller/')) or rel.endswith('__main__.py'):
+            continue
+        names, mods = _fs_aliases(tree, False)
+        if names or mods:
+            mentioning.append(rel)
+    constructions = raw_constructions(trees)
     lines = ['(* GENERATED by translate/c18_census.py from every *.py below /repo/src/srctools. Do not edit. *)',
              'From Coq Require Import NArith List String.', 'From SV Require Import SM.PathNorm SM.PathOps.',
              'Import ListNotations.', 'Open Scope string_scope.']
@@ -447,15 +515,18 @@ def translate() -> tuple[str, dict]:
     lines += _triples('reachable_foreign_caches', reach, 'cached functions of other modules reached from the methods of the four classes')
     lines += _triples('per_object_state', state, 'containers / outside state kept on File, FileSystem, RawFileSystem objects')
     lines += _triples('entry_unread', unread, 'methods of File / FileSystem the entry-point reader could not read')
+    lines += _triples('unconstrained_constructions', [c for c in constructions if c[2].startswith('UNCONSTRAINED')],
+                      'RawFileSystem(...) calls in the package that switch the constraint off (or pass something other than a literal True)')
     lines += [f'Definition constructor_signature_ok : bool := {"true" if sig_ok else "false"}.',
               '(* the entry points RawFileSystem inherits from FileSystem and the methods of File: (entry, method called, argument) *)',
               'Definition entry_points : list ccall := [',
               ';\n'.join(f'  {{| cc_method := "{m if c == 'FileSystem' else c + '.' + m}"; cc_member := "{mm}"; cc_arg := {p} |}}' for c, m, mm, p in entries), '].', '']
-    side = {'files_read': len(trees), 'foreign_patches': [list(x) for x in patches], 'foreign_subclasses': [list(x) for x in subs],
+    side = {'files_read': len(trees), 'files_without_any_mention': skipped, 'foreign_patches': [list(x) for x in patches], 'foreign_subclasses': [list(x) for x in subs],
             'decorator_origins': [list(x) for x in decs], 'reachable_foreign_caches': [list(x) for x in reach],
             'foreign_functions_followed': followed, 'per_object_state': [list(x) for x in state],
             'object_attributes': attrs, 'constructor_signature_ok': sig_ok,
-            'entry_points': [list(x) for x in entries], 'entry_unread': [list(x) for x in unread]}
+            'entry_points': [list(x) for x in entries], 'entry_unread': [list(x) for x in unread],
+            'modules_mentioning_the_classes': sorted(mentioning), 'raw_file_system_constructions': [list(c) for c in constructions]}
     return '\n'.join(lines), side
 
 
